@@ -2,12 +2,15 @@
    Proved: (1) the generated membership test means "public, or shares a fleet"; (2) every accepted enter() — reached by an
    instruction of any controller or by a default transition — has established `grants target vehicle` for every entity
    the activity names (request / station / base, and for ChargingBase also the station behind the base): the membership
-   conjuncts of Guards.guard.  PARTIAL: the built-in dispatchers' pairing filter is decided by the generator-level
+   conjuncts of Guards.guard; (3) over whole histories (C10_access_over_histories, via the macro frame theorem): after every
+   finite sequence of step operations with instructions from any controller, every entity named by every vehicle's CURRENT
+   activity (station, base, the station behind the base, the request it is assigned to, the request it carries) grants access
+   to the vehicle's membership.  PARTIAL: the built-in dispatchers' pairing filter is decided by the generator-level
    engine (harness) rather than a theorem. *)
 From Hive.Base Require Import Prelude.
 From Hive.Model Require Import Types KernelBase SimOps States Step.
 From Hive.Gen Require Import Kernels.
-From Hive.Proofs Require Import Guards Member VehFrame.
+From Hive.Proofs Require Import Guards Member VehFrame Macro CountInv PlaceInv.
 
 Theorem C10_grant_access_meaning : forall e v : Membership,
   grant_access_to_membership e v = true <-> e = [] \/ exists f, In f e /\ In f v.
@@ -25,6 +28,10 @@ Proof. exact vs_enter_guard. Qed.
 Theorem C10_membership_constant_over_histories : forall env ops s0, vkeys s0 -> forall vid v0, find vid (vehicles s0) = Some v0 ->
   exists v, find vid (vehicles (fold_left (step_op env) ops s0)) = Some v /\ v_mem v = v_mem v0.
 Proof. intros env ops s0 K vid v0 F. destruct (history_vehicle_frame env ops s0 K vid v0 F) as (v & Fv & _ & M & _). eauto. Qed.
+Theorem C10_access_over_histories : forall env ops s0, vkeys s0 -> Inv_place s0 -> Forall op_ok ops ->
+  forall vid v, find vid (vehicles (fold_left (step_op env) ops s0)) = Some v -> has_access (fold_left (step_op env) ops s0) v.
+Proof. exact access_over_histories. Qed.
+Print Assumptions C10_access_over_histories.
 Print Assumptions C10_membership_constant_over_histories.
 Print Assumptions C10_grant_access_meaning.
 Print Assumptions C10_grant_access_id_meaning.
